@@ -118,6 +118,17 @@ CLAIMS = {
               "model; the running code is checked on sequences of resample/smooth/solve (geometry, extent, the sigma "
               "that reaches gaussian_filter, value range, constants, monotone profiles, unit-change pairs, and the "
               "following solve against a fresh object).")),
+    "C06": dict(
+        category="proof", design_ref="DESIGN.md §8 C06",
+        technique="Lean 4 congruence theorems for the solver glue (every scalar type) and translation lemmas for cell lookup/bilinear interpolation over the reals + API-level correspondence with the Lean Api model + metamorphic translation runs",
+        text=("Proved for every scalar type (hence bit-for-bit): the solver outcome, traveltimes, gradient and vzero depend on "
+              "origin and source only through source - origin, so any two problems with equal grid-relative sources (exactly "
+              "representable translations) give identical grids; the result record carries the origin and the given source. "
+              "Proved over the reals: the cell lookup and the bilinear interpolant are invariant under a common translation of "
+              "axes and query. The glue (sources - origin, 1/v, record) is tied by bit-level correspondence of Eikonal.solve "
+              "with the Lean Api model; the running code is compared for (origin o, coords p+o) vs (origin 0, coords p) and "
+              "origin None vs zeros: grids bit-equal when representable, values/rays to 1e-9, single and list, interpreter and "
+              "JIT. Known finding: rays move by ~1e-3 cell under non-representable translations (gradient tie flips).")),
 }
 
 WIP = "check not registered yet in this revision (model/theorems under construction); see DESIGN.md §8"
